@@ -1000,6 +1000,8 @@ def fault_history(ctx):
 def run(ctx):
     t0 = time.time()
     core.check_props(ctx, ["Props/C12.v"])
+    # the order of in_toto_record_stop / start as the source has it now: ordering checkers on the regenerated skeletons
+    core.run_ties(ctx, "Tie/C12.v", gen_files=("Skel.v",))
     n = 1500 if ctx.thorough() else 260
     n_gpg = 60 if ctx.thorough() else 8
     gpg = hk.Gpg(ctx.work)
